@@ -43,6 +43,7 @@ type recorder struct {
 var rec recorder
 
 func (r *recorder) add(it recItem) {
+	recordedTotal.Add(1)
 	r.mu.Lock()
 	r.seq++
 	it.Seq = r.seq
@@ -263,6 +264,7 @@ type yielder struct {
 }
 
 func (y *yielder) fn(name string) {
+	yieldHitsTotal.Add(1)
 	c, _ := y.hits.LoadOrStore(name, new(atomic.Int64))
 	c.(*atomic.Int64).Add(1)
 	if p, ok := y.pause.Load(name); ok {
@@ -375,6 +377,11 @@ func stuckInAppender(marker string) (bool, string) {
 
 // callWithWatchdog runs f in a goroutine (tagged by marker in its stack through the caller) and
 // waits up to d. Returns done=false when the watchdog fired, plus a goroutine dump.
+//
+// The duration is not a deadline for the verdict: when it expires the call is only given up if the library made no
+// observable progress (no item recorded by a monitor appender, no yield point passed) for three further 10 s
+// observations - a call that waits for a slow but progressing consumer on a loaded machine is not a hang. While there is
+// progress the wait goes on (cap 15 min; then done=false with an empty dump, which callers report as inconclusive).
 func callWithWatchdog(d time.Duration, f func()) (done bool, pv any, dump string) {
 	ch := make(chan any, 1)
 	go func() {
@@ -385,9 +392,29 @@ func callWithWatchdog(d time.Duration, f func()) (done bool, pv any, dump string
 	case pv = <-ch:
 		return true, pv, ""
 	case <-time.After(d):
-		return false, nil, goroutineDump()
 	}
+	last, stale := libraryProgress(), 0
+	for waited := 0; waited < 90; waited++ {
+		select {
+		case pv = <-ch:
+			return true, pv, ""
+		case <-time.After(10 * time.Second):
+		}
+		if cur := libraryProgress(); cur != last {
+			last, stale = cur, 0
+			continue
+		}
+		if stale++; stale >= 3 {
+			return false, nil, goroutineDump()
+		}
+	}
+	return false, nil, ""
 }
+
+var yieldHitsTotal, recordedTotal atomic.Int64
+
+// libraryProgress is a monotone counter of things the library did that a monitor could see.
+func libraryProgress() int64 { return yieldHitsTotal.Load() + recordedTotal.Load() }
 
 //go:noinline
 func watchdogMarker(f func()) { f() }
